@@ -595,6 +595,22 @@ func inboundCase(rt *rapid.T, prop string, f inboundFlags) {
 	}
 	rt.Repeat(actions)
 
+	// One ending in five (C07): the application still holds what ReadSlices
+	// returned last when another goroutine ends the client with Disconnect:
+	// no acknowledgement for the held message may go out.
+	if f.c07 && !h.App.InCall() && h.Current() != nil && h.Current().Accepted() && rapid.IntRange(0, 4).Draw(rt, "disconnectWhileHolding") == 0 {
+		h.Act("disconnect while the application holds the last return")
+		dc := h.Go("disconnect", &Req{Kind: "disconnect", Quit: "nil"}, func() (<-chan error, error) { return nil, h.Client.Disconnect(nil) })
+		h.MustPoll("Disconnect returning", func() bool { return h.IsDone(dc) })
+		check(false)
+		h.label("disconnect-while-the-application-holds-a-message")
+		h.finishCase = true
+	}
+	if h.finishCase {
+		h.finish(true)
+		return
+	}
+
 	// drain: the broker retransmits and completes every cycle
 	h.drain(func() bool {
 		if !h.allPersistedDone() {
